@@ -76,6 +76,8 @@ def build(kind, x0, x1, n):
         return {} if n == 0 else ({'a': x0} if n == 1 else {'a': x0, 'b': x1})
     if kind == 'set':
         return set() if n == 0 else ({x0} if n == 1 else {x0, x1})
+    if kind == 'wdict':       # keys that are not keyword-shaped (call() filters such names out of its kwargs)
+        return {} if n == 0 else ({'2nd': x0} if n == 1 else {'2nd': x0, '$r': x1})
     if kind == 'nlist':
         return [] if n == 0 else ([[x0, x1]] if n == 1 else [[x0, x1], [x1]])
     if kind == 'ndict':
@@ -201,7 +203,10 @@ def apply(x0: int, x1: int, n: int, conv: bool) -> bool:
 
 
 # ------------------------------------------------------------------ histories on one shared context
-POOL = ['let(x => $) -> $x', '$x', 'def(f, $ + 1) -> f()', 'f()', '[$, 1].unpack(x, y) -> [$x, $y, $1]', 'with($, 2) -> $2',
+POOL = ['let(x => $) -> $x', '$x', 'def(f, $ + 1) -> f()', 'f()',
+        '[[1, 2], [1, 3]].groupBy($[0], $[1], [$[0], $[1].sum()])',       # old-style aggregator (key/values pair)
+        '[[1, 2], [1, 3]].groupBy($[0], $[1], $.sum())',                   # new-style aggregator (values only)
+        '[$, 1].unpack(x, y) -> [$x, $y, $1]', 'with($, 2) -> $2',
         "regex('(a)').search('a', $1.value + $2.value)", '[$1, $2, $y]']
 _SOLO = {}
 
@@ -248,7 +253,7 @@ FIXED = [
     ('set', '[$, $]'),
     ('ndict', '$.a'), ('ndict', '$.a + [9]'), ('ndict', '$.b.set(a, 1)'), ('nlist', '$[0]'), ('nlist', '$.select($.len())'),
     ('nlist', '$.len()'), ('nlist', '$[0].insert(0, 9)'), ('nlist', '$ + $[0]'), ('nlist', '$.flatten()'),
-    ('ndict', '$.mergeWith({a => [7]})'), ('ndict', '$.set(a, 1)'), ('ndict', '$.values()'), ('ndict', '$.items()'),
+    ('ndict', '$.mergeWith({a => [7]})'), ('wdict', 'call(len, [[1, 2]], $)'), ('wdict', '$.len()'), ('ndict', '$.set(a, 1)'), ('ndict', '$.values()'), ('ndict', '$.items()'),
     # context-writing constructs
     ('list', 'let(x => $) -> $x'), ('list', 'let($, y => $) -> [$1, $y]'), ('list', 'with($) -> $1'),
     ('list', '$.unpack() -> [$1, $2]'), ('list', '$.unpack(x, y) -> $x'), ('list', 'def(f, $) -> f()'),
@@ -297,7 +302,7 @@ QUICK_FIXED = {'$ + $', '[9] + $', '$ + [9]', '$ + {c => 1}', '$ * 2', '1 in $',
                '$hv[1].k.append(1)', '$hs.add(3)', '[$hv, $hs]', 'hostFn($hv)'}
 
 
-QUICK_ALWAYS = {('ndict', '$.mergeWith({a => [7]})'), ('ndict', '$.a + [9]'), ('nlist', '$[0].insert(0, 9)')}
+QUICK_ALWAYS = {('wdict', 'call(len, [[1, 2]], $)'), ('ndict', '$.mergeWith({a => [7]})'), ('ndict', '$.a + [9]'), ('nlist', '$[0].insert(0, 9)')}
 
 
 def conditions(tier, seed):
